@@ -10,6 +10,7 @@ Nodes are identified by their `lang.Repr` string, as in the code.
 -/
 import GoZero.C15.Proofs5
 import GoZero.C15.Pinned
+import GoZero.C15.Conc
 namespace GoZero.C15
 
 /-- the abstract membership after `ops`: repr ↦ (value, number of virtual nodes) -/
@@ -174,6 +175,168 @@ theorem reweight_moves_only_to_or_from (H : Hasher) (R0 : Int) (ops : List Op) (
     rw [specRun_snoc, hr, adds_repr hop, hf'] at hf
     have : n = v := by injection hf with h; injection h
     rw [hv, this]
+
+/-! ### concurrency: one writer (any program), any number of readers, the RWMutex as in the code
+
+`Conc.exec H atomic ops (Conc.init R0) sched` is the state after the schedule `sched` (any list of "writer steps",
+"reader t calls Get(k)", "reader t steps"; disabled steps are skipped).  `log` holds every Get that returned,
+with its window `[lo, hi]` = [writer operations completed when it took the read lock, operations begun when it
+returned].  AddWithReplicas is TWO critical sections (Remove, then the insertion), so a Get may see the ring
+without the node in between; that — and nothing else — is what a concurrent Get can observe. -/
+
+/-- **every concurrent Get is a sequential Get** on the state after a prefix of the writer's program inside its
+window, or on the intermediate state (node removed, not yet re-inserted) of an adding operation in its window. -/
+theorem conc_get_explained (H : Hasher) (atomic : Bool) (R0 : Int) (ops : List Op) (sched : List Conc.Act) :
+    ∀ e ∈ (Conc.exec H atomic ops (Conc.init R0) sched).log, Conc.Explained H R0 ops e :=
+  (Conc.good_exec H atomic R0 ops sched _ (Conc.good_init H R0 ops)).log
+
+/-- **mutual exclusion**: while the writer is inside a critical section no reader is inside Get (so the two
+reads of Get see one state), in every reachable state. -/
+theorem conc_mutual_exclusion (H : Hasher) (atomic : Bool) (R0 : Int) (ops : List Op) (sched : List Conc.Act) (t : Conc.Tid)
+    (h : Conc.holding (Conc.exec H atomic ops (Conc.init R0) sched).wpc = true) :
+    (Conc.exec H atomic ops (Conc.init R0) sched).rpc t = .idle :=
+  Conc.all_idle (Conc.good_exec H atomic R0 ops sched _ (Conc.good_init H R0 ops)) h t
+
+/-- the intermediate state of an adding operation represents the membership without the node -/
+theorem conc_mid_represents (H : Hasher) (R0 : Int) (ops : List Op) (n : Node) :
+    Inv H (remove H (run H R0 ops) n) ((members R0 ops).del n.repr) :=
+  inv_remove H _ _ n (inv_run H R0 ops)
+
+/-- **a concurrent Get never panics** (no division by zero on the intermediate state either). -/
+theorem conc_get_never_panics (H : Hasher) (atomic : Bool) (R0 : Int) (ops : List Op) (sched : List Conc.Act)
+    (e : Conc.Obs) (he : e ∈ (Conc.exec H atomic ops (Conc.init R0) sched).log) : e.o ≠ .panic := by
+  obtain ⟨j, _, _, _, h | ⟨_, op, n, r, _, _, h⟩⟩ := conc_get_explained H atomic R0 ops sched e he
+  · rw [h]; exact get_never_panics_reachable H R0 _ _
+  · rw [h]; exact get_never_panics (conc_mid_represents H R0 _ n) _
+
+/-- **a concurrent Get returns only members**: the returned node is, with at least one virtual node, in the
+membership after some prefix of the program inside the Get's window. -/
+theorem conc_get_member_only (H : Hasher) (atomic : Bool) (R0 : Int) (ops : List Op) (sched : List Conc.Act)
+    (e : Conc.Obs) (he : e ∈ (Conc.exec H atomic ops (Conc.init R0) sched).log) (v : Node) (hv : e.o = .node v) :
+    ∃ j, e.lo ≤ j ∧ j ≤ e.hi ∧ ∃ c, (members R0 (ops.take j)).find v.repr = some (v, c) ∧ 0 < c := by
+  obtain ⟨j, h1, h2, _, h | ⟨_, op, n, r, _, _, h⟩⟩ := conc_get_explained H atomic R0 ops sched e he
+  · exact ⟨j, h1, h2, get_member_only H R0 _ e.k v (by rw [← h, hv])⟩
+  · obtain ⟨c, hf, hc⟩ := get_member (conc_mid_represents H R0 (ops.take j) n) e.k v (by rw [← h, hv])
+    rw [find_del] at hf
+    split at hf
+    · cases hf
+    · exact ⟨j, h1, h2, c, hf, hc⟩
+
+/-- on the intermediate state of an operation that (re-)adds `n`, the node returned is a member BEFORE and
+AFTER the operation, and it is not `n`. -/
+theorem conc_mid_member_before_and_after (H : Hasher) (R0 : Int) (ops : List Op) (op : Op) (n k v : Node) (r : Int)
+    (hop : Conc.opSplit (CH.new R0).replicas op = (n, some r))
+    (hv : get H (remove H (run H R0 ops) n) k = .node v) :
+    v.repr ≠ n.repr ∧ ∃ c, 0 < c ∧ (members R0 ops).find v.repr = some (v, c)
+      ∧ (members R0 (ops ++ [op])).find v.repr = some (v, c) := by
+  obtain ⟨c, hf, hc⟩ := get_member (conc_mid_represents H R0 ops n) k v hv
+  rw [find_del] at hf
+  split at hf
+  · cases hf
+  · rename_i hne
+    refine ⟨hne, c, hc, hf, ?_⟩
+    have hrepr : op.repr = n.repr := by
+      cases op <;> simp only [Conc.opSplit, Prod.mk.injEq] at hop <;> simp only [Op.repr] <;>
+        first | (rw [hop.1]) | (cases hop.2)
+    unfold members
+    rw [specRun_snoc, specStep_find _ _ _ _ (by rw [hrepr]; exact hne)]
+    exact hf
+
+/-- **a removed node is never returned, concurrently**: a repr that is no member after any prefix inside the
+Get's window (removed before the Get began, not re-added before it returned) is not the repr of the answer. -/
+theorem conc_removed_never_returned (H : Hasher) (atomic : Bool) (R0 : Int) (ops : List Op) (sched : List Conc.Act)
+    (e : Conc.Obs) (he : e ∈ (Conc.exec H atomic ops (Conc.init R0) sched).log) (rr : String)
+    (hgone : ∀ j, e.lo ≤ j → j ≤ e.hi → (members R0 (ops.take j)).find rr = none)
+    (v : Node) (hv : e.o = .node v) : v.repr ≠ rr := by
+  obtain ⟨j, h1, h2, c, hf, _⟩ := conc_get_member_only H atomic R0 ops sched e he v hv
+  intro heq
+  rw [heq, hgone j h1 h2] at hf
+  cases hf
+
+/-- a Get that overlaps no writer operation (`lo = hi`) is the sequential Get after `lo` operations. -/
+theorem conc_quiescent_get (H : Hasher) (atomic : Bool) (R0 : Int) (ops : List Op) (sched : List Conc.Act)
+    (e : Conc.Obs) (he : e ∈ (Conc.exec H atomic ops (Conc.init R0) sched).log) (hq : e.lo = e.hi) :
+    e.o = get H (run H R0 (ops.take e.lo)) e.k := by
+  obtain ⟨j, h1, h2, _, h | ⟨hlt, _⟩⟩ := conc_get_explained H atomic R0 ops sched e he
+  · have : j = e.lo := by omega
+    rw [h, this]
+  · omega
+
+/-- **with AddWithReplicas as ONE critical section** (fixes/C15-add-single-critical-section.patch) every
+concurrent Get is linearizable: it is the sequential Get after some prefix of the program inside its window —
+the intermediate state does not exist. -/
+theorem conc_atomic_get_linearizable (H : Hasher) (R0 : Int) (ops : List Op) (sched : List Conc.Act) :
+    ∀ e ∈ (Conc.exec H true ops (Conc.init R0) sched).log, Conc.Linear H R0 ops e :=
+  (Conc.goodAtomic_exec H R0 ops sched _ ⟨Conc.good_init H R0 ops, rfl, by simp [Conc.init]⟩).lin
+
+set_option maxRecDepth 100000 in
+/-- non-vacuity: a schedule in which reader 7 runs Get between the two critical sections of a re-add and
+really sees the ring without the node (the only member: the answer is `none` although the ring holds `n`
+before and after), and reader 8 sees it again afterwards. -/
+example :
+    let sched : List Conc.Act :=
+      [.w, .w, .w, .w, .w,            -- addR n 3 complete
+       .w, .w, .w,                    -- addW n 50: Remove done, insertion not begun
+       .rget 7 ⟨"i", "1"⟩, .r 7, .r 7, .r 7,
+       .w, .w,                        -- insertion
+       .rget 8 ⟨"i", "1"⟩, .r 8, .r 8, .r 8]
+    ((Conc.exec Pinned.W false [.addR Pinned.n 3, .addW Pinned.n 50] (Conc.init 0) sched).log.map
+      fun e => (e.t, e.o, e.lo, e.hi)) = [(8, .node Pinned.n, 2, 2), (7, .none, 1, 2)] := by
+  decide
+
+set_option maxRecDepth 100000 in
+/-- the single-writer hypothesis is needed: AddWithReplicas is not atomic, so two goroutines adding the same
+node interleave as Remove, Remove, insert, insert — the node then owns every virtual node twice, one Remove
+drops one copy only, and Get returns a node that `Remove` has removed (the `nodes` set no longer lists it,
+so a further Remove is a no-op). At the granularity of the critical sections: -/
+theorem two_writers_resurrect_removed :
+    let H := Pinned.W
+    let n := Pinned.n
+    let s0 := CH.new 0
+    let s1 := insertPhase H (insertPhase H (remove H (remove H s0 n) n) n 2) n 2   -- Add ∥ Add
+    let s2 := remove H (remove H s1 n) n                                              -- Remove; Remove
+    s2.nodes = [] ∧ get H s2 ⟨"i", "1"⟩ = .node n := by
+  decide
+
+/-! ### the users (cache cluster, kv store): the ring they build and how a key is dispatched
+
+`Tie.tie_cacheUsers` / `tie_kvUsers`: both call `NewConsistentHash()` and then `AddWithWeight(node, conf.Weight)`
+per configured node, in order, and dispatch with `dispatcher.Get(key)`; nothing else touches the ring. -/
+
+/-- the ring of a configuration `[(node, weight), …]` -/
+def userRing (H : Hasher) (conf : List (Node × Int)) : CH :=
+  conf.foldl (fun s p => addWithWeight H s p.1 p.2) (CH.new (minReplicas : Int))
+
+/-- it is a reachable state of the model, so every theorem above applies to the users' dispatch -/
+theorem userRing_is_run (H : Hasher) (conf : List (Node × Int)) :
+    userRing H conf = run H (minReplicas : Int) (conf.map fun p => Op.addW p.1 p.2) := by
+  unfold userRing run
+  rw [List.foldl_map]
+  rfl
+
+/-- **dispatch goes to a configured node**: with its configured address, the LAST entry for that address,
+and a weight that gives it at least one virtual node (for 0 ≤ w ≤ 100: exactly w, `Tie.weight_is_percent`). -/
+theorem user_dispatch_member (H : Hasher) (conf : List (Node × Int)) (k n : Node)
+    (h : get H (userRing H conf) k = .node n) :
+    ∃ c, (members (minReplicas : Int) (conf.map fun p => Op.addW p.1 p.2)).find n.repr = some (n, c) ∧ 0 < c := by
+  rw [userRing_is_run] at h
+  exact get_member_only H _ _ k n h
+
+/-- dispatch never panics and is `none` only if no configured node got a virtual node -/
+theorem user_dispatch_total (H : Hasher) (conf : List (Node × Int)) (k : Node) :
+    get H (userRing H conf) k ≠ .panic ∧
+    (get H (userRing H conf) k = .none ↔
+      ∀ r, (members (minReplicas : Int) (conf.map fun p => Op.addW p.1 p.2)).cnt r = 0) := by
+  rw [userRing_is_run]
+  exact ⟨get_never_panics_reachable H _ _ k, get_none_iff_no_virtual_nodes H _ _ k⟩
+
+/-- the order of two configuration entries with different addresses does not matter -/
+theorem user_conf_order_irrelevant (H : Hasher) (conf : List (Node × Int)) (a b : Node × Int)
+    (hne : a.1.repr ≠ b.1.repr) (k : Node) :
+    get H (userRing H (conf ++ [a, b])) k = get H (userRing H (conf ++ [b, a])) k := by
+  rw [userRing_is_run, userRing_is_run]
+  simp only [List.map_append, List.map_cons, List.map_nil]
+  exact ops_on_different_nodes_commute H _ _ (.addW a.1 a.2) (.addW b.1 b.2) hne k
 
 /-! ### the monitor used on the implementation's trace is sound for the model -/
 
